@@ -27,7 +27,9 @@ CONSTANTS TraceFile
 Trace == ndJsonDeserialize(TraceFile)
 
 VARIABLES l, viol, drift, stat,
-          kreq,     \* workers a kill was requested for (queued / TestKill called)
+          kreq,     \* [done: workers whose KillingWorker handler ran / TestKill was called,
+                    \*  pend: kill requests queued and not executed yet (a request whose
+                    \*        transition is CANCELED requested nothing)]
           over,     \* workers whose counted errors exceeded WorkerErrKill
           deliv     \* worker -> errors delivered for it while tracked (set of pairs)
 
@@ -47,7 +49,7 @@ ResetTo(x) ==
   /\ cfg' = CfgOf(x)
   /\ active' = <<>>
   /\ wk' = [f \in {} |-> NoWorker]
-  /\ kreq' = {} /\ over' = {} /\ deliv' = {}
+  /\ kreq' = [done |-> {}, pend |-> <<>>] /\ over' = {} /\ deliv' = {}
 
 TraceInit ==
   /\ l = 2 /\ viol = {} /\ drift = {}
@@ -57,7 +59,7 @@ TraceInit ==
   /\ wk = [f \in {} |-> NoWorker]
   /\ queue = <<>> /\ norm = NormIdle /\ hb = HbIdle /\ cnt = Cnt0
   /\ bad = {} /\ wit = {} /\ hist = <<>>
-  /\ kreq = {} /\ over = {} /\ deliv = {}
+  /\ kreq = [done |-> {}, pend |-> <<>>] /\ over = {} /\ deliv = {}
   /\ stat = [Stat0 EXCEPT !.cases = 1]
 
 D(name) == {<<l, name>>}
@@ -191,7 +193,9 @@ EvTx ==
          newOver == {x.ws[i].id : i \in {j \in 1..Len(x.ws) : x.ws[j].errs > c.errkill}}
      IN /\ active' = after
         /\ wk' = FollowMap(wk0, x, c)
-        /\ kreq' = IF Ran(x, "state", "KillingWorker") THEN kreq \cup {x.w} ELSE kreq
+        /\ kreq' = [done |-> IF Ran(x, "state", "KillingWorker") THEN kreq.done \cup {x.w} ELSE kreq.done,
+                    pend |-> IF x.op = "add" /\ SHas(x.called, "KillingWorker")
+                             THEN SWithout(kreq.pend, x.w) ELSE kreq.pend]
         /\ over' = over \cup newOver
         /\ deliv' = IF errCounted THEN DelivInc(deliv, x.w) ELSE deliv
         /\ drift' = drift \cup d
@@ -218,12 +222,13 @@ EvTx ==
 (* a kill request / an error / a kill confirmation reached the queue          *)
 EvQ ==
   /\ Line.ev = "q"
-  /\ kreq' = IF Line.state = "KillingWorker" /\ Line.op = "add" THEN kreq \cup {Line.w} ELSE kreq
+  /\ kreq' = IF Line.state = "KillingWorker" /\ Line.op = "add"
+              THEN [kreq EXCEPT !.pend = Append(@, Line.w)] ELSE kreq
   /\ UNCHANGED <<vars, viol, drift, stat, over, deliv>>
 
 EvKill ==
   /\ Line.ev = "kill"
-  /\ kreq' = kreq \cup {Line.w}
+  /\ kreq' = [kreq EXCEPT !.done = @ \cup {Line.w}]
   /\ stat' = [stat EXCEPT !.kills = @ + 1]
   /\ UNCHANGED <<vars, viol, drift, over, deliv>>
 
@@ -238,8 +243,9 @@ EvWtx ==
 (* end of a case (after a settle): the kill formulas                          *)
 EvEnd ==
   /\ Line.ev = "end"
-  /\ LET owed1 == {w \in over : w \notin kreq}
-         owed2 == {p[1] : p \in {q \in deliv : q[2] > cfg.errkill /\ q[1] \notin kreq}}
+  /\ LET asked(w) == w \in kreq.done \/ SHas(kreq.pend, w)
+         owed1 == {w \in over : ~asked(w)}
+         owed2 == {p[1] : p \in {q \in deliv : q[2] > cfg.errkill /\ ~asked(q[1])}}
      IN viol' = viol \cup When(owed1 # {}, "KillRequested")
                      \cup When(owed2 # {}, "KillRequestedDelivered")
   /\ UNCHANGED <<vars, drift, stat, kreq, over, deliv>>
